@@ -1032,67 +1032,91 @@ func (rn *Runner) RoundTrip(kind string, pv int, t *Ty, v *Val, targets []*GTy) 
 // covered on the Coq side by small truncated inputs (SizeFieldBoundaryCases).
 func (rn *Runner) BigElementChecks() {
 	o := rn.O
-	blob := Native(gocql.TypeBlob)
+	blob, text := Native(gocql.TypeBlob), Native(gocql.TypeText)
+	// one big case: Marshal outcome against the reference (an error exactly when the value does not fit the
+	// framing of this protocol version), bytes, decode of the reference encoding, and the round trip of what
+	// Marshal itself returned.  orderFree: a multi-entry map (emission order unknown): class, total length and
+	// count field only.
+	check := func(label string, pv int, t *Ty, v *Val, g *GTy, orderFree bool) {
+		o.Count("big-size-monitor")
+		input := map[string]string{"pv": fmt.Sprint(pv), "type": t.String(), "case": label}
+		cv, _, _ := Denote(t, v)
+		exp, ok := SpecEncode(pv, t, cv)
+		out, cls, msg := DoMarshal(t.Info(byte(pv)), v.Iface())
+		if cls == ClsPanic {
+			o.Violate(-1, "marshal-panics", "", label+": "+msg, input)
+			return
+		}
+		if !ok {
+			// not a value of this protocol version's framing (a 2-byte size field cannot hold it)
+			if cls == ClsOk {
+				o.Violate(-1, "encodes-unrepresentable-value", "", fmt.Sprintf("%s on protocol %d does not fit the size fields, yet Marshal returned %d bytes (first 8: %x) instead of an error", label, pv, len(out), head8(out)), input)
+				if res, dcls, _, _ := DoUnmarshal(t.Info(byte(pv)), out, g); dcls == ClsOk && !orderFree {
+					if dc, _, dok := DenoteDecoded(t, res); dok && !cvMatch(cv, dc) {
+						o.Violate(-1, "roundtrip-different-value", "", fmt.Sprintf("%s on protocol %d: Marshal then Unmarshal gives a different value (lengths %s)", label, pv, lens(dc)), input)
+					}
+				}
+			}
+			return
+		}
+		if cls != ClsOk {
+			o.Violate(-1, "marshal-rejects-encodable-value", "", fmt.Sprintf("%s on protocol %d: %s", label, pv, msg), input)
+			return
+		}
+		w := 2
+		if pv > 2 {
+			w = 4
+		}
+		if orderFree {
+			if len(out) != len(exp) || !bytes.Equal(out[:w], exp[:w]) {
+				o.Violate(-1, "not-the-specified-bytes", "", fmt.Sprintf("%s: Marshal %d bytes, count field %x; specification %d bytes, count field %x", label, len(out), out[:w], len(exp), exp[:w]), input)
+			}
+		} else if !bytes.Equal(out, exp) {
+			o.Violate(-1, "not-the-specified-bytes", "", fmt.Sprintf("%s: Marshal %d bytes, first 8 %x; specification: %d bytes, first 8 %x", label, len(out), head8(out), len(exp), head8(exp)), input)
+		}
+		if orderFree {
+			return // reading 65536 map entries back is slow; the list / set cases cover the decode side
+		}
+		res, dcls, dmsg, _ := DoUnmarshal(t.Info(byte(pv)), out, g)
+		if dcls != ClsOk {
+			o.Violate(-1, "roundtrip-decode-fails", "", fmt.Sprintf("%s: %s", label, dmsg), input)
+			return
+		}
+		dc, _, dok := DenoteDecoded(t, res)
+		if !dok || !cvMatch(cv, dc) {
+			o.Violate(-1, "roundtrip-different-value", "", fmt.Sprintf("%s decoded to something else (lengths %s)", label, lens(dc)), input)
+		}
+	}
 	for _, pv := range []int{1, 2, 3} {
-		for _, n := range []int{32767, 32768, 40000, 65535} {
+		// one element / map value / map key of n bytes
+		for _, n := range []int{32767, 32768, 40000, 65535, 65536} {
 			big := make([]byte, n)
 			for i := range big {
 				big[i] = byte(i*7 + n)
 			}
-			type tc struct {
-				t *Ty
-				v *Val
-				g *GTy
-			}
-			for _, c := range []tc{
-				{&Ty{K: "list", E: blob}, VSlice(TK("bytes"), []*Val{VBytes(false, []byte{1}), VBytes(false, big), VBytes(false, []byte{2, 3})}), TSlice(TK("bytes"))},
-				{&Ty{K: "map", Key: Native(gocql.TypeText), E: blob}, VMapOf(TK("str"), TK("bytes"), [][2]*Val{{VStr(false, "k"), VBytes(false, big)}}, false), TMapOf(TK("str"), TPtr(TK("bytes")))},
-			} {
-				o.Count("big-element-monitor")
-				cv, _, _ := Denote(c.t, c.v)
-				exp, ok := SpecEncode(pv, c.t, cv)
-				if !ok {
-					continue
-				}
-				input := map[string]string{"pv": fmt.Sprint(pv), "type": c.t.String(), "element-bytes": fmt.Sprint(n)}
-				out, cls, msg := DoMarshal(c.t.Info(byte(pv)), c.v.Iface())
-				if cls != ClsOk || !bytes.Equal(out, exp) {
-					o.Violate(-1, "not-the-specified-bytes", "", fmt.Sprintf("collection with an element of %d bytes: Marshal class %d (%s), %d bytes, first 8 %x; specification: %d bytes, first 8 %x", n, cls, msg, len(out), head8(out), len(exp), head8(exp)), input)
-				}
-				res, dcls, dmsg, _ := DoUnmarshal(c.t.Info(byte(pv)), exp, c.g)
-				if dcls != ClsOk {
-					o.Violate(-1, "unmarshal-rejects-specification-conformant encoding", "", fmt.Sprintf("collection with an element of %d bytes: %s", n, dmsg), input)
-					continue
-				}
-				dc, _, dok := DenoteDecoded(c.t, res)
-				if !dok || !cvMatch(cv, dc) {
-					o.Violate(-1, "decodes-to-a-different-value", "", fmt.Sprintf("collection with an element of %d bytes decoded to something else (element lengths %s)", n, lens(dc)), input)
-				}
-			}
+			check(fmt.Sprintf("list<blob> with an element of %d bytes", n), pv, &Ty{K: "list", E: blob},
+				VSlice(TK("bytes"), []*Val{VBytes(false, []byte{1}), VBytes(false, big), VBytes(false, []byte{2, 3})}), TSlice(TK("bytes")), false)
+			check(fmt.Sprintf("map<text,blob> with a value of %d bytes", n), pv, &Ty{K: "map", Key: text, E: blob},
+				VMapOf(TK("str"), TK("bytes"), [][2]*Val{{VStr(false, "k"), VBytes(false, big)}}, false), TMapOf(TK("str"), TPtr(TK("bytes"))), false)
+			check(fmt.Sprintf("map<text,blob> with a key of %d bytes", n), pv, &Ty{K: "map", Key: text, E: blob},
+				VMapOf(TK("str"), TK("bytes"), [][2]*Val{{VStr(false, string(big)), VBytes(false, []byte{5})}}, false), TMapOf(TK("str"), TK("bytes")), false)
 		}
-	}
-	// a list with 2^15 and more elements on the 2-byte framing (thorough tier only: 100 KB values)
-	if o.Tier == "thorough" {
-		for _, cnt := range []int{32768, 65535} {
+		// element counts at the limit of the 2-byte count field
+		counts := []int{65535, 65536}
+		if o.Tier == "thorough" {
+			counts = []int{32767, 32768, 65535, 65536, 70000}
+		}
+		for _, cnt := range counts {
 			items := make([]*Val, cnt)
+			kv := make([][2]*Val, cnt)
 			for i := range items {
-				items[i] = VInt64(I8, false, int64(i%100))
+				items[i] = VBytes(false, []byte{byte(i), byte(i >> 8)})
+				kv[i] = [2]*Val{VInt64(I32, false, int64(i)), VInt64(I8, false, int64(i%100))}
 			}
-			t := &Ty{K: "list", E: Native(gocql.TypeTinyInt)}
-			v := VSlice(TInt(I8, false), items)
-			cv, _, _ := Denote(t, v)
-			exp, _ := SpecEncode(2, t, cv)
-			o.Count("big-count-monitor")
-			out, cls, _ := DoMarshal(t.Info(2), v.Iface())
-			if cls != ClsOk || !bytes.Equal(out, exp) {
-				o.Violate(-1, "not-the-specified-bytes", "", fmt.Sprintf("list of %d elements on protocol 2", cnt), nil)
-			}
-			res, dcls, dmsg, _ := DoUnmarshal(t.Info(2), exp, TSlice(TInt(I8, false)))
-			if dcls != ClsOk {
-				o.Violate(-1, "unmarshal-rejects-specification-conformant encoding", "", fmt.Sprintf("list of %d elements on protocol 2: %s", cnt, dmsg), nil)
-			} else if dc, _, dok := DenoteDecoded(t, res); !dok || !cvMatch(cv, dc) {
-				o.Violate(-1, "decodes-to-a-different-value", "", fmt.Sprintf("list of %d elements on protocol 2", cnt), nil)
-			}
+			check(fmt.Sprintf("list<blob> of %d elements", cnt), pv, &Ty{K: "list", E: blob}, VSlice(TK("bytes"), items), TSlice(TK("bytes")), false)
+			check(fmt.Sprintf("set<blob> of %d elements", cnt), pv, &Ty{K: "set", E: blob}, VSlice(TK("bytes"), items), TSlice(TKN("bytes", true)), false)
+			check(fmt.Sprintf("map<int,tinyint> of %d entries", cnt), pv, &Ty{K: "map", Key: Native(gocql.TypeInt), E: Native(gocql.TypeTinyInt)},
+				VMapOf(TInt(I32, false), TInt(I8, false), kv, false), TMapOf(TInt(I32, false), TInt(I8, false)), true)
 		}
 	}
 }
